@@ -50,3 +50,20 @@ Example duplicate_power_levels_slot_same_level_with_and_without_cache :
   ProofsPower.level_of (power_level_for_sender st_dup None (bytes_of_string "$x")) = Ok 50%Z
   /\ ProofsPower.level_of (power_level_for_sender st_dup (Some (bytes_of_string "@alice:a")) (bytes_of_string "$x")) = Ok 50%Z.
 Proof. split; vm_compute; reflexivity. Qed.
+
+(** [C06_duplicate_auth_slot_last_listed_decides] on an event citing a stale leave and the current
+    join of its sender (seeded C06-9): the join, listed last, is what the auth map holds. *)
+Definition st_dupm : store :=
+  [ create_ev "$c" "@alice:a" 1;
+    member_ev "$bj0" "@bob:b" "@bob:b" "join" 10 ["$c"];
+    member_ev "$bl" "@bob:b" "@bob:b" "leave" 20 ["$c"; "$bj0"];
+    member_ev "$bj" "@bob:b" "@bob:b" "join" 30 ["$c"; "$bl"] ].
+
+Example stale_leave_then_join_join_decides :
+  match own_auth_map st_dupm (ids ["$c"; "$bl"; "$bj"]) [] with
+  | Ok m => match klookup (t_member, bytes_of_string "@bob:b") m with
+            | Some x => str_eqb (e_id x) (bytes_of_string "$bj")
+            | None => false end
+  | _ => false
+  end = true.
+Proof. vm_compute. reflexivity. Qed.
